@@ -7,6 +7,7 @@ import Rl4co.Core.Basic
 import Rl4co.Core.Tour
 import Rl4co.Core.Sort
 import Rl4co.Generated.Params
+import Rl4co.Env.TspfamBase
 
 namespace Rl4co.Atsp
 
@@ -39,7 +40,7 @@ def stepWith (flag : Bool) (i : Inst) (s : State) (a : Nat) : State :=
 /-- `batch_to_scalar(td["i"]) == 0`: `td["i"][0].item() == 0` — the counter of the FIRST row. -/
 def firstFlag : List State → Bool
   | [] => false
-  | s :: _ => s.i == 0
+  | s :: _ => Params.atspFirstStepCmp.evalNat s.i 0
 
 def step (i : Inst) (s : State) (a : Nat) : State := stepWith (firstFlag [s]) i s a
 
@@ -55,11 +56,16 @@ def env : Env Inst State where
   step := step
   done _ s := s.done
 
+/-- `nodes_tgt = torch.roll(actions, k, dims=1)` with the extracted shift; without `dims=1` the roll would
+run over the flattened batch (not a per-row operation; modelled as no roll). -/
+def tourNext (as : List Nat) : List Nat :=
+  if Params.atspRollAlongSteps then Tspfam.rollInt Params.atspRollShift as else as
+
 /-- `_get_reward`: `-cost_matrix[b, actions, roll(actions, -1)].sum(-1)` -/
 def reward (i : Inst) (as : List Nat) : Int :=
-  - (List.zipWith (fun src tgt => i.M src tgt) as (roll1 as)).sum
+  - (List.zipWith (fun src tgt => i.M src tgt) as (tourNext as)).sum
 
 /-- `check_solution_validity` (same idiom as TSP) -/
-def check (_ : Inst) (as : List Nat) : Bool := sortedIsRange as.length as
+def check (_ : Inst) (as : List Nat) : Bool := Tspfam.permTest Params.atspCheckCmp as.length as
 
 end Rl4co.Atsp
